@@ -150,19 +150,20 @@ type Invocation struct {
 
 // Outcome is what a run produced.
 type Outcome struct {
-	Status    int    `json:"status"` // exit status, -1 if killed by a signal
-	Signal    string `json:"signal,omitempty"`
-	Stdout    string `json:"stdout"`
-	Stderr    string `json:"stderr"`
-	Crash     string `json:"crash,omitempty"` // crash signature found on stderr
-	StepsOut  bool   `json:"step_budget_exceeded,omitempty"`
-	CPUOut    bool   `json:"cpu_limit_exceeded,omitempty"`
-	Steps     int64  `json:"steps,omitempty"`
-	Sig       string `json:"schedule_sig,omitempty"`
-	Opened    []string `json:"opened,omitempty"` // resolved paths of successful opens (Trace)
-	Attempted []string `json:"attempted,omitempty"` // paths of all open/stat attempts (Trace)
-	Injected  int    `json:"injected,omitempty"`  // faults that fired
-	WallMS    int64  `json:"-"`
+	Status     int            `json:"status"` // exit status, -1 if killed by a signal
+	Signal     string         `json:"signal,omitempty"`
+	Stdout     string         `json:"stdout"`
+	Stderr     string         `json:"stderr"`
+	Crash      string         `json:"crash,omitempty"` // crash signature found on stderr
+	StepsOut   bool           `json:"step_budget_exceeded,omitempty"`
+	CPUOut     bool           `json:"cpu_limit_exceeded,omitempty"`
+	Steps      int64          `json:"steps,omitempty"`
+	Sig        string         `json:"schedule_sig,omitempty"`
+	Opened     []string       `json:"opened,omitempty"`    // resolved paths of successful opens (Trace)
+	Attempted  []string       `json:"attempted,omitempty"` // paths of all open/stat attempts (Trace)
+	Injected   int            `json:"injected,omitempty"`  // faults that fired
+	InjectedBy map[string]int `json:"injected_by_syscall,omitempty"`
+	WallMS     int64          `json:"-"`
 }
 
 var crashRE = regexp.MustCompile(`(?m)^(panic: |fatal error: |goroutine \d+ \[|runtime: |SIGSEGV|unexpected fault address|\[signal SIG)`)
@@ -385,6 +386,7 @@ func (l *limitWriter) Write(p []byte) (int, error) {
 var (
 	openOK   = regexp.MustCompile(`^\d+\s+(?:open|openat|openat2)\(.*\) = \d+<([^>]*)>`)
 	injected = regexp.MustCompile(`\(INJECTED\)`)
+	sysName  = regexp.MustCompile(`^\d+\s+(\w+)\(`)
 	killedBy = regexp.MustCompile(`\+\+\+ killed by (\w+)`)
 )
 
@@ -392,6 +394,12 @@ func parseStrace(log string, out *Outcome) {
 	for _, line := range strings.Split(log, "\n") {
 		if injected.MatchString(line) {
 			out.Injected++
+			if m := sysName.FindStringSubmatch(line); m != nil {
+				if out.InjectedBy == nil {
+					out.InjectedBy = map[string]int{}
+				}
+				out.InjectedBy[m[1]]++
+			}
 		}
 		if m := openOK.FindStringSubmatch(line); m != nil {
 			out.Opened = append(out.Opened, m[1])
